@@ -1,0 +1,25 @@
+//go:build verif
+
+package updog
+
+import "sync/atomic"
+
+var verifHook atomic.Pointer[func(site string)]
+
+// VerifSetHook installs a callback that is invoked at every verifPoint. It only
+// exists in builds with the "verif" tag and is meant for verification harnesses
+// (snapshotting files after commits, injecting delays or crashes).
+func VerifSetHook(f func(site string)) {
+	if f == nil {
+		verifHook.Store(nil)
+		return
+	}
+
+	verifHook.Store(&f)
+}
+
+func verifPoint(site string) {
+	if f := verifHook.Load(); f != nil {
+		(*f)(site)
+	}
+}
